@@ -28,11 +28,12 @@ CONSTANTS MaxF,       \* initial file length 0..MaxF
           MaxOps,     \* operations per phase 1..MaxOps
           MaxPhases,
           Chunk,      \* cells per pread / pwrite
+          WithStop,   \* TRUE: dispatch_io_close(DISPATCH_IO_STOP) may hit the last phase while it is in flight
           Emit,       \* TRUE: print one vector per finished behaviour (used with -simulate)
-          Mut         \* "none" | "nobase" (ignore f_ptr) | "rr_shared_total" (spec mutants, must be refuted)
+          Mut         \* "none" | "nobase" (ignore f_ptr) | "rr_shared_total" | "stop_after_io" (spec mutants, must be refuted)
 
-VARIABLES file, base, phase, ops, prog, got, fin, file0, hist
-vars == <<file, base, phase, ops, prog, got, fin, file0, hist>>
+VARIABLES file, base, phase, ops, prog, got, fin, file0, hist, stopped, err
+vars == <<file, base, phase, ops, prog, got, fin, file0, hist, stopped, err>>
 
 Min(a, b) == IF a < b THEN a ELSE b
 Max(a, b) == IF a > b THEN a ELSE b
@@ -60,27 +61,45 @@ ReadResult(F, o) ==
   LET s == Start(o)  e == Min(End(o), Len(F))
   IN IF s >= e THEN <<>> ELSE SubSeq(F, s + 1, e)
 ApplyWrite(F, s, d) ==
+  IF d = <<>> THEN F ELSE
   [i \in 1..Max(Len(F), s + Len(d)) |->
      IF i > s /\ i <= s + Len(d) THEN d[i - s] ELSE IF i <= Len(F) THEN F[i] ELSE 0]
-RECURSIVE ApplyAll(_, _, _, _)
-ApplyAll(F, p, os, i) ==
+\* pr[i] = how much of write i reached the file (all of it unless the channel was stopped)
+RECURSIVE ApplyAll(_, _, _, _, _)
+ApplyAll(F, p, os, pr, i) ==
   IF i > Len(os) THEN F
-  ELSE ApplyAll(IF os[i].k = "w" THEN ApplyWrite(F, Start(os[i]), WData(p, i, os[i])) ELSE F, p, os, i + 1)
+  ELSE ApplyAll(IF os[i].k = "w" THEN ApplyWrite(F, Start(os[i]), SubSeq(WData(p, i, os[i]), 1, pr[i])) ELSE F, p, os, pr, i + 1)
 
 Init ==
   /\ \E n \in 0..MaxF : file = [i \in 1..n |-> 1000 + i]
   /\ base \in 0..MaxB
   /\ phase = 0 /\ ops = <<>> /\ prog = <<>> /\ got = <<>> /\ fin = <<>> /\ file0 = <<>> /\ hist = <<>>
+  /\ stopped = FALSE /\ err = <<>>
 
 Submit(os) ==
-  /\ ops = <<>> /\ phase < MaxPhases /\ NonConflicting(file, os)
+  /\ ops = <<>> /\ phase < MaxPhases /\ NonConflicting(file, os) /\ ~stopped
   /\ ops' = os /\ phase' = phase + 1 /\ file0' = file
   /\ prog' = [i \in DOMAIN os |-> 0] /\ got' = [i \in DOMAIN os |-> <<>>] /\ fin' = [i \in DOMAIN os |-> FALSE]
-  /\ UNCHANGED <<file, base, hist>>
+  /\ err' = [i \in DOMAIN os |-> 0]
+  /\ UNCHANGED <<file, base, hist, stopped>>
+
+(* dispatch_io_close(channel, DISPATCH_IO_STOP) while the batch is in flight: every operation that has not
+   finished completes with ECANCELED at its next turn, keeping what it has transferred so far *)
+Stop ==
+  /\ WithStop /\ ops # <<>> /\ ~stopped /\ phase = MaxPhases
+  /\ stopped' = TRUE
+  /\ UNCHANGED <<file, base, phase, ops, prog, got, fin, file0, hist, err>>
+
+Cancel(i) ==
+  /\ ops # <<>> /\ i \in DOMAIN ops /\ ~fin[i] /\ stopped /\ Mut # "stop_after_io"
+  /\ fin' = [fin EXCEPT ![i] = TRUE] /\ err' = [err EXCEPT ![i] = 1]
+  /\ UNCHANGED <<file, base, phase, ops, prog, got, file0, hist, stopped>>
 
 (* (I) one chunk of operation i: _dispatch_operation_perform *)
 Step(i) ==
-  /\ ops # <<>> /\ i \in DOMAIN ops /\ ~fin[i]
+  /\ ops # <<>> /\ i \in DOMAIN ops /\ ~fin[i] /\ (~stopped \/ Mut = "stop_after_io")
+  /\ (Mut = "stop_after_io" /\ stopped => err' = [err EXCEPT ![i] = 1])
+  /\ (~(Mut = "stop_after_io" /\ stopped) => err' = err)
   /\ LET o == ops[i]
          \* mutant: the running total of the round-robin neighbour is used for the position
          tot == IF Mut = "rr_shared_total" /\ Len(ops) > 1 THEN prog[(i % Len(ops)) + 1] ELSE prog[i]
@@ -97,25 +116,26 @@ Step(i) ==
                 /\ prog' = [prog EXCEPT ![i] = @ + want]
                 /\ fin' = [fin EXCEPT ![i] = prog[i] + want >= o.len]
                 /\ got' = got
-  /\ UNCHANGED <<base, phase, ops, file0, hist>>
+  /\ UNCHANGED <<base, phase, ops, file0, hist, stopped>>
 
 AllDone == ops # <<>> /\ \A i \in DOMAIN ops : fin[i]
 
 EndPhase ==
   /\ AllDone
-  /\ hist' = Append(hist, <<[i \in DOMAIN ops |-> <<IF ops[i].k = "r" THEN 0 ELSE 1, ops[i].off, ops[i].len>>], got, file0, file>>)
-  /\ ops' = <<>> /\ prog' = <<>> /\ got' = <<>> /\ fin' = <<>>
-  /\ UNCHANGED <<file, base, phase, file0>>
+  /\ hist' = Append(hist, <<[i \in DOMAIN ops |-> <<IF ops[i].k = "r" THEN 0 ELSE 1, ops[i].off, ops[i].len>>], [i \in DOMAIN ops |-> ReadResult(file0, ops[i])], file0, file, IF stopped THEN 1 ELSE 0>>)
+  /\ ops' = <<>> /\ prog' = <<>> /\ got' = <<>> /\ fin' = <<>> /\ err' = <<>>
+  /\ UNCHANGED <<file, base, phase, file0, stopped>>
 
 Finished == phase = MaxPhases /\ ops = <<>>
 EmitVec ==
   /\ Finished /\ Emit /\ phase' = phase + 1
   /\ PrintT(ToString(<<7777, Len(hist[1][3]), base, hist>>))
-  /\ UNCHANGED <<file, base, ops, prog, got, fin, file0, hist>>
+  /\ UNCHANGED <<file, base, ops, prog, got, fin, file0, hist, stopped, err>>
 
 Next ==
   \/ \E os \in OpSeqs : Submit(os)
-  \/ \E i \in 1..MaxOps : Step(i)
+  \/ \E i \in 1..MaxOps : Step(i) \/ Cancel(i)
+  \/ Stop
   \/ EndPhase
   \/ EmitVec
 
@@ -124,8 +144,14 @@ Spec == Init /\ [][Next]_vars
 (* the property on random channels *)
 PhaseLaw ==
   AllDone =>
-    /\ \A i \in DOMAIN ops : ops[i].k = "r" => got[i] = ReadResult(file0, ops[i])
-    /\ file = ApplyAll(file0, phase, ops, 1)
+    /\ \A i \in DOMAIN ops : ops[i].k = "r" /\ err[i] = 0 => got[i] = ReadResult(file0, ops[i])
+    /\ \A i \in DOMAIN ops : ops[i].k = "w" /\ err[i] = 0 => prog[i] = ops[i].len
+    /\ \A i \in DOMAIN ops : err[i] # 0 => stopped
+    \* the file holds exactly what the operations report as transferred (the unwritten remainder a write's handler
+    \* receives with ECANCELED is its data minus prog[i])
+    /\ file = ApplyAll(file0, phase, ops, prog, 1)
+\* nothing moves once the stop has been noticed: an operation cancelled by it transfers no further chunk
+StopIsFinal == [][\A i \in DOMAIN ops : (stopped /\ ops' = ops /\ i \in DOMAIN prog') => prog'[i] = prog[i]]_vars
 \* delivered at most `length', only bytes that exist, in order (prefix at every moment)
 ReadPrefix ==
   \A i \in DOMAIN ops : ops[i].k = "r" =>
